@@ -83,6 +83,9 @@ func genCase(t *rapid.T) Case {
 				op.Mode, op.N, op.D = "page", rapid.IntRange(0, 40).Draw(t, "page"), rapid.IntRange(-1, 1).Draw(t, "pd")
 			}
 			c.Ops = append(c.Ops, op)
+		} else if rapid.IntRange(0, 11).Draw(t, "isreset") == 0 {
+			// Reset (readers that have it): back to the first row
+			c.Ops = append(c.Ops, ROp{K: "reset"})
 		} else {
 			c.Ops = append(c.Ops, ROp{K: "read", N: []int{1, 1, 2, 3, 5, 17, 64, 200}[rapid.IntRange(0, 7).Draw(t, "rn")]})
 		}
@@ -290,7 +293,7 @@ func runCase(c Case, o *kit.Obs) *kit.Failure {
 	model := wantRows[lo:hi]
 	n := int64(len(model))
 	cursor := int64(0)
-	seeks, backward, seekSeek := 0, 0, 0
+	seeks, backward, seekSeek, resets := 0, 0, 0, 0
 	lastWasSeek := false
 	for i, op := range c.Ops {
 		switch op.K {
@@ -323,6 +326,13 @@ func runCase(c Case, o *kit.Obs) *kit.Failure {
 			}
 			lastWasSeek = true
 			cursor = k
+		case "reset":
+			if rs, ok := rr.(interface{ Reset() }); ok && rr != nil {
+				rs.Reset()
+				cursor = 0
+				lastWasSeek = false
+				resets++
+			}
 		case "read":
 			lastWasSeek = false
 			if pages != nil {
@@ -404,6 +414,7 @@ done:
 		o.Class("rows>=100")
 	}
 	o.ClassIf(seekSeek > 0, "seek-seek")
+	o.ClassIf(resets > 0, "reset")
 	o.ClassIf(backward > 0, "backward")
 	o.ClassIf(c.Async, "async")
 	o.ClassIf(c.SkipIndex, "no-page-index")
